@@ -178,6 +178,17 @@ func (w *FileWatcher) watchLoop(ctx context.Context) {
 					w.mu.Lock()
 					changesToNotify := pendingChanges
 					pendingChanges = nil
+					// The files may have changed again since the poll that detected
+					// them. Record what is on disk now - which is what the callback
+					// is about to read - so that a later change back to the content
+					// seen by that poll is still noticed as a change.
+					for _, change := range changesToNotify {
+						if hash, err := w.hashFile(change.Path); err == nil {
+							w.fileHashes[change.Path] = hash
+						} else {
+							delete(w.fileHashes, change.Path)
+						}
+					}
 					w.mu.Unlock()
 
 					if len(changesToNotify) > 0 && w.onChange != nil {
